@@ -45,6 +45,14 @@ theorem fact_entry_points_hold_pod_lock :
     Generated.Plugin.allUnderPodLock = true ∧ Generated.Plugin.noKeyAccessBeforePodLock = true ∧
       Generated.Plugin.podLockKeyUniform = true := by decide
 
+/-- Preempt is the one entry point that reaches the IPAM WITHOUT the pod lock: it calls `getSubnet` (which may allocate or
+    re-key records towards the pod's key) and never `lockPod`.  The model has it as its own move (`Move.preempt`), so every
+    theorem below holds with a preempt of any pod interleaved anywhere; `Galaxy.Plugin.preempt_alloc_any_time` shows its
+    allocation is safe in ANY state (it only takes free or pool/deployment-prefix records, never a record under a pod's
+    key), which is why running concurrently with a locked operation on the same pod cannot hurt.  The lock-exclusion
+    probe lists it as an entry point that legitimately does not park behind the pod lock. -/
+theorem fact_preempt_without_pod_lock : Generated.Plugin.preemptCallsGetSubnetUnlocked = true := by decide
+
 /-- Bind takes the pod object (and its UID) from the pod lister - the model's `bind` reads `vPods`. -/
 theorem fact_bind_reads_pod_from_lister : Generated.Plugin.bindReadsPodFromLister = true := by decide
 
